@@ -103,11 +103,42 @@ def validateOld (env : Env) (s : Shred) (cached : Option Commitment) (pk : Nat) 
 /-- the Merkle path consumes the whole index: `index >> path.len() == 0` -/
 def Shred.indexConsumed (s : Shred) : Bool := decide (s.index / 2 ^ s.path.length = 0)
 
-/-- `ValidatedShred::try_new(shred, cached_commitment, pk)` (after the D32 `fix:`): a shred whose index is not
-    fully consumed by its Merkle path is refused as `InvalidSignature` before the cache shortcut and the
-    signature check. -/
-def validate (env : Env) (s : Shred) (cached : Option Commitment) (pk : Nat) : Except VErr VShred :=
+/-- `ValidatedShred::try_new` after the D32 `fix:` and before the D34 `fix:`: on a cache hit (`cached == msg`) the
+    signature of the shred is never looked at (defect D34: a relay replaces the signature of a genuine shred by
+    garbage; once another shred has seeded the cache it is accepted, stored, forwarded, and `deshred` may copy the
+    garbage into every regenerated shred). Kept for the witness theorem. -/
+def validateCacheOld (env : Env) (s : Shred) (cached : Option Commitment) (pk : Nat) : Except VErr VShred :=
   if !s.indexConsumed then .error .invalidSignature else validateOld env s cached pk
+
+/-- `SliceCommitment` as a cache entry (since the D34 `fix:`): the bytes the leader signs and, when the entry was
+    obtained from a validated shred, the signature that was verified for them (`verified_sig`). Rust's `==` on
+    `SliceCommitment` compares `commitment` only. -/
+structure Cached where
+  commitment : Commitment
+  sig : Option Sig
+deriving DecidableEq, Repr, Inhabited
+
+/-- `ValidatedShred::commitment()`: remembers the shred's own signature as verified -/
+def VShred.cacheEntry (v : VShred) : Cached := ⟨v.commitment, some v.shred.sig⟩
+
+/-- the shortcut condition: same commitment and the very signature verified for the cached one -/
+def Cached.shortcuts (e : Cached) (msg : Commitment) (sig : Sig) : Bool :=
+  decide (e.commitment = msg) && decide (e.sig = some sig)
+
+/-- `ValidatedShred::try_new(shred, cached_commitment, pk)` (after the D32 and D34 `fix:`es): index guard; then the
+    shortcut (cached commitment identical *and* the shred carries the signature verified for it); otherwise the
+    signature is verified in full, and a valid signature over another commitment than the cached one is
+    `Equivocation`. -/
+def validate (env : Env) (s : Shred) (cached : Option Cached) (pk : Nat) : Except VErr VShred :=
+  if !s.indexConsumed then .error .invalidSignature
+  else
+    let root := s.sliceRoot env
+    let msg := commit s.header root
+    if (match cached with | some e => e.shortcuts msg s.sig | none => false) then .ok ⟨s, root⟩
+    else if !s.sig.verify msg pk then .error .invalidSignature
+    else match cached with
+      | some e => if e.commitment ≠ msg then .error .equivocation else .ok ⟨s, root⟩
+      | none => .ok ⟨s, root⟩
 
 /-! ### slices and their payload bytes (wincode, fixed-width little endian integers) -/
 
